@@ -92,3 +92,62 @@ theorem poissonCounts_spec : ∀ (ms : List Rat) (ds cs : List Int), poissonCoun
           · exact h3 p hp hp0
 
 end Strengths
+
+namespace Strengths
+
+/-- a channel that can actually move something: every reaction; a diffusion slot only if it has a neighbour -/
+def hasTarget (e : EngIn) : Event → Bool
+  | .reaction _ _ => true
+  | .diffusion i _ n => (e.topo.nbr i n).isSome
+
+/-- the tau-leap channel list IS the Gillespie channel list (same order) without the wall slots -/
+theorem tauChannels_eq_filter (e : EngIn) :
+    tauChannels e = (channels e (List.range e.topo.nCells)).filter (hasTarget e) := by
+  unfold tauChannels channels cellChannels speciesSlots
+  rw [List.filter_flatMap]
+  congr 1; funext i
+  rw [List.filter_append, List.filter_map, List.filter_map, List.filter_flatMap]
+  congr 1
+  · have : (List.range e.net.nReact).filter (hasTarget e ∘ Event.reaction i) = List.range e.net.nReact := by
+      apply List.filter_eq_self.2; intro r _; rfl
+    rw [this]
+  · rw [List.map_flatMap]
+    congr 1; funext s
+    rw [List.filter_map, List.map_map]
+    induction List.range (e.topo.nSlots i) with
+    | nil => rfl
+    | cons n rest ih =>
+      by_cases h : (e.topo.nbr i n).isSome = true
+      · simp only [List.filterMap_cons, h, if_true, List.filter_cons, Function.comp, hasTarget, List.map_cons]
+        rw [ih]
+      · have h' : (e.topo.nbr i n).isSome = false := by simpa using h
+        simp only [List.filterMap_cons, h', Bool.false_eq_true, if_false, List.filter_cons, Function.comp, hasTarget]
+        rw [ih]
+
+/-- the wall slots that the tau-leap list leaves out have propensity 0 -/
+theorem propOf_zero_of_not_hasTarget (e : EngIn) (x : State) (c : Event) (h : hasTarget e c = false) :
+    propOf e x c = 0 := by
+  cases c with
+  | reaction i r => simp [hasTarget] at h
+  | diffusion i s n =>
+    simp only [hasTarget] at h
+    simp [propOf, diffPropSlot, h]
+
+theorem sum_map_filter_of_zero {α : Type} (p : α → Bool) (f : α → Rat) (l : List α)
+    (h : ∀ a ∈ l, p a = false → f a = 0) : ((l.filter p).map f).sum = (l.map f).sum := by
+  induction l with
+  | nil => rfl
+  | cons a rest ih =>
+    have ih' := ih (fun b hb => h b (by simp [hb]))
+    cases hp : p a
+    · simp [List.filter_cons, hp, ih', h a (by simp) hp]
+    · simp [List.filter_cons, hp, ih']
+
+/-- so both engines see the same total propensity: `a0` = sum over the tau-leap channels -/
+theorem a0_eq_sum_tauChannels (e : EngIn) (x : State) :
+    a0 e x = ((tauChannels e).map (propOf e x)).sum := by
+  rw [a0_eq, tauChannels_eq_filter, sum_map_filter_of_zero]
+  intro c _ hc
+  exact propOf_zero_of_not_hasTarget e x c hc
+
+end Strengths
